@@ -147,14 +147,14 @@ Section X.
   (** the repaired [handle_vary_missing] ([fix_vary = true]); the other repairs are parameters *)
   Notation finishR := (finishX fix_svary negotiate vary_header).
   Notation missR := (missX hstate compute true ims_on fix_ovkey fix_svary sfilter negotiate vary_tuple vary_header).
-  Notation vmissR := (vary_missingX hstate compute true ims_on true fix_svary sfilter negotiate vary_tuple vary_header).
-  Notation serveR := (serveX hstate compute true ims_on true fix_ovkey fix_svary sfilter parse_ims sanitize_ok prime override
+  Notation vmissR := (vary_missingX hstate compute true ims_on true fix_svary true sfilter negotiate vary_tuple vary_header).
+  Notation serveR := (serveX hstate compute true ims_on true fix_ovkey fix_svary true sfilter parse_ims sanitize_ok prime override
                              negotiate vary_tuple vary_header).
-  Notation stepR := (stepX hstate compute true ims_on true fix_ovkey fix_clear fix_svary sfilter parse_ims sanitize_ok prime
+  Notation stepR := (stepX hstate compute true ims_on true fix_ovkey fix_clear fix_svary true sfilter parse_ims sanitize_ok prime
                            override negotiate vary_tuple vary_header clear_alias).
-  Notation runR_state := (runX_state hstate compute true ims_on true fix_ovkey fix_clear fix_svary sfilter parse_ims sanitize_ok
+  Notation runR_state := (runX_state hstate compute true ims_on true fix_ovkey fix_clear fix_svary true sfilter parse_ims sanitize_ok
                                      prime override negotiate vary_tuple vary_header clear_alias).
-  Notation runR := (runX hstate compute true ims_on true fix_ovkey fix_clear fix_svary sfilter parse_ims sanitize_ok
+  Notation runR := (runX hstate compute true ims_on true fix_ovkey fix_clear fix_svary true sfilter parse_ims sanitize_ok
                          prime override negotiate vary_tuple vary_header clear_alias).
 
   Definition ims_hit (r : request) (e : entryx) : bool :=
@@ -178,7 +178,7 @@ Section X.
   | CC_push e :
       found = Some e -> ok && get_or_head (rq_method r) = true -> ims_hit r e = false ->
       xv_find (vary_tuple r ov) (ex_vars e) = None ->
-      may_store_x true sfilter (rq_method r) x = true ->
+      may_store_x true sfilter (rq_method r) x = true -> qm_key_ok k x = true ->
       cache_change c1 now r ov ok k found x
         (xc_insert k {| ex_vars := mkVar (vary_tuple r ov) x now :: ex_vars e; ex_created := now;
                         ex_life := min_life (option_map (fun l => l - (now - ex_created e)) (ex_life e)) (lifetime_x x) |} c1).
@@ -207,8 +207,9 @@ Section X.
         * destruct (xv_find (vary_tuple r ov) (ex_vars e)) as [v|] eqn:V.
           -- inversion H; subst. cbn [fst]. apply CC_same.
           -- unfold vary_missingX in H. destruct (compute hs r ov ok) as [[x hs'] lg'] eqn:C. cbn [fst].
-             destruct (may_store_x true sfilter (rq_method r) x) eqn:A; inversion H; subst; cbn [fst].
-             ++ eapply CC_push; try eassumption; reflexivity.
+             cbn [negb orb] in H.
+             destruct (may_store_x true sfilter (rq_method r) x && qm_key_ok k x) eqn:A; inversion H; subst; cbn [fst].
+             ++ apply andb_true_iff in A as [A Q]. eapply CC_push; try eassumption; reflexivity.
              ++ apply CC_same.
       + eapply Hmiss; [exact H | right; reflexivity].
     - eapply Hmiss; [exact H | left; reflexivity].
@@ -249,7 +250,7 @@ Section X.
     intros I. destruct (serveR (c, hs) now r0) as [[st' rp] lg] eqn:S. cbn [fst].
     destruct (serve_cache_update _ _ _ _ _ _ _ S) as (k & found & c1 & L & CC).
     pose proof (AdmInv_lookup _ _ _ _ _ _ L I) as I1.
-    destruct CC as [ | A _ | e Ef G Im V A ].
+    destruct CC as [ | A _ | e Ef G Im V A Q ].
     - exact I1.
     - apply AdmInv_insert; [exact I1|]. cbn [ex_vars]. intros v [<- | []]. cbn [v_resp]. eapply may_store_get; exact A.
     - apply AdmInv_insert; [exact I1|]. cbn [ex_vars]. intros v [<- | Hin].
@@ -315,7 +316,7 @@ Section X.
     intros I. destruct (serveR (c, hs) now r0) as [[st' rp] lg] eqn:S. cbn [fst].
     destruct (serve_cache_update _ _ _ _ _ _ _ S) as (k & found & c1 & L & CC).
     pose proof (LifeInv_lookup _ _ _ _ _ _ L I) as I1.
-    destruct CC as [ | A _ | e Ef G Im V A ].
+    destruct CC as [ | A _ | e Ef G Im V A Q ].
     - exact I1.
     - apply LifeInv_insert; [exact I1 | cbn; lia |]. cbn [ex_vars]. intros v [<- | []].
       unfold var_life_ok. cbn [v_stored v_resp ex_created ex_life]. split; [lia|].
@@ -459,8 +460,6 @@ Section X.
 End X.
 
 (** ================= C04: one computation per key while fresh, over whole histories ================= *)
-Definition qmx (x : fatx) : bool := f_spref (fx_fat x) =? SP_QUERY.
-
 Lemma key_p_ne_pq a b : key_p a <> key_pq b.
 Proof. unfold key_p, key_pq. destruct (path_query b). discriminate. Qed.
 Lemma keys_same_path a b k :
@@ -493,11 +492,11 @@ Section Once.
   Variable clear_alias : request -> option request.
 
   Notation finishR := (finishX fix_svary negotiate vary_header).
-  Notation serveR := (serveX hstate compute true ims_on true true fix_svary sfilter parse_ims sanitize_ok prime override
+  Notation serveR := (serveX hstate compute true ims_on true true fix_svary true sfilter parse_ims sanitize_ok prime override
                              negotiate vary_tuple vary_header).
-  Notation stepR := (stepX hstate compute true ims_on true true fix_clear fix_svary sfilter parse_ims sanitize_ok prime
+  Notation stepR := (stepX hstate compute true ims_on true true fix_clear fix_svary true sfilter parse_ims sanitize_ok prime
                            override negotiate vary_tuple vary_header clear_alias).
-  Notation runR_state := (runX_state hstate compute true ims_on true true fix_clear fix_svary sfilter parse_ims sanitize_ok
+  Notation runR_state := (runX_state hstate compute true ims_on true true fix_clear fix_svary true sfilter parse_ims sanitize_ok
                                      prime override negotiate vary_tuple vary_header clear_alias).
 
   (** the request whose response was stored, the response, the time it was stored and a deadline *)
@@ -554,7 +553,7 @@ Section Once.
     destruct (xlookup_cases _ _ _ _ _ _ L) as (Hk1 & _ & Hres).
     set (r1' := prime r1) in *. set (ov1 := override r1) in *. set (lr1 := lookup_req r1' ov1) in *.
     set (x1 := fst (fst (compute hs r1' ov1 (sanitize_ok r1)))) in *.
-    destruct CC as [ | A G | e1 Ef G Im V1 A ].
+    destruct CC as [ | A G | e1 Ef G Im V1 A Q ].
     - exists e. repeat split; assumption.
     - (* a new entry: under another key *)
       assert (Hnone : found = None).
@@ -726,8 +725,8 @@ Section TransparencyX.
 
   (** the handler contract of the property: the response is a function [cf] of the request (not of handler state)
       that depends only on the method class, the path of the URI that selects the handler (the internal route if
-      a Prime overrode the URI), the vary tuple and — for QueryMatters — the query; query-matters-ness is uniform
-      per path; error responses (sanitize failed) are not cacheable *)
+      a Prime overrode the URI), the vary tuple and — for QueryMatters — the query; error responses (sanitize
+      failed) are not cacheable *)
   Variable cf : request -> option (bytes * option bytes) -> bool -> fatx.
   Hypothesis Hpure : forall hs r ov ok, fst (fst (compute hs r ov ok)) = cf r ov ok.
   Hypothesis contract : forall r ov r' ov',
@@ -735,24 +734,22 @@ Section TransparencyX.
     vary_tuple r ov = vary_tuple r' ov' -> rq_path (lookup_req r ov) = rq_path (lookup_req r' ov') ->
     (qmx (cf r ov true) = true -> path_query (lookup_req r ov) = path_query (lookup_req r' ov')) ->
     cf r ov true = cf r' ov' true.
-  Hypothesis pref_uniform : forall r ov r' ov',
-    rq_path (lookup_req r ov) = rq_path (lookup_req r' ov') -> qmx (cf r ov true) = qmx (cf r' ov' true).
   Hypothesis Herr : forall r ov, f_spref (fx_fat (cf r ov false)) = SP_NONE.
 
   Notation finishT := (finishX true negotiate vary_header).
-  Notation serveC := (serveX hstate compute true ims_on true true true sfilter parse_ims sanitize_ok prime override
+  Notation serveC := (serveX hstate compute true ims_on true true true true sfilter parse_ims sanitize_ok prime override
                              negotiate vary_tuple vary_header).
-  Notation serveU := (serveX hstate compute false ims_on true true true sfilter parse_ims sanitize_ok prime override
+  Notation serveU := (serveX hstate compute false ims_on true true true true sfilter parse_ims sanitize_ok prime override
                              negotiate vary_tuple vary_header).
-  Notation stepC := (stepX hstate compute true ims_on true true fix_clear true sfilter parse_ims sanitize_ok prime
+  Notation stepC := (stepX hstate compute true ims_on true true fix_clear true true sfilter parse_ims sanitize_ok prime
                            override negotiate vary_tuple vary_header clear_alias).
-  Notation stepU := (stepX hstate compute false ims_on true true fix_clear true sfilter parse_ims sanitize_ok prime
+  Notation stepU := (stepX hstate compute false ims_on true true fix_clear true true sfilter parse_ims sanitize_ok prime
                            override negotiate vary_tuple vary_header clear_alias).
-  Notation runC := (runX hstate compute true ims_on true true fix_clear true sfilter parse_ims sanitize_ok prime
+  Notation runC := (runX hstate compute true ims_on true true fix_clear true true sfilter parse_ims sanitize_ok prime
                          override negotiate vary_tuple vary_header clear_alias).
-  Notation runU := (runX hstate compute false ims_on true true fix_clear true sfilter parse_ims sanitize_ok prime
+  Notation runU := (runX hstate compute false ims_on true true fix_clear true true sfilter parse_ims sanitize_ok prime
                          override negotiate vary_tuple vary_header clear_alias).
-  Notation runC_state := (runX_state hstate compute true ims_on true true fix_clear true sfilter parse_ims sanitize_ok prime
+  Notation runC_state := (runX_state hstate compute true ims_on true true fix_clear true true sfilter parse_ims sanitize_ok prime
                                      override negotiate vary_tuple vary_header clear_alias).
 
   Definition key_okx (k : key) (lr : request) (x : fatx) : Prop :=
@@ -828,7 +825,7 @@ Section TransparencyX.
     (forall e, found = Some e -> xc_find k c1 = Some e /\ (k = key_pq (lookup_req r ov) \/ k = key_p (lookup_req r ov))) ->
     cache_change ims_on true sfilter parse_ims vary_tuple c1 now r ov ok k found (cf r ov ok) c2 -> TInv c2.
   Proof.
-    intros I Hok Hf CC. destruct CC as [ | A G | e Ef G Im V A ].
+    intros I Hok Hf CC. destruct CC as [ | A G | e Ef G Im V A Q ].
     - exact I.
     - assert (Hok' : ok = true).
       { destruct ok; [reflexivity|]. apply may_store_x_iff in A. rewrite Herr in A. tauto. }
@@ -841,11 +838,7 @@ Section TransparencyX.
       exists r, ov. cbn [v_tuple v_resp]. repeat split; try assumption; try reflexivity.
       destruct Hk as [-> | ->]; unfold key_okx, key_pq, key_p.
       + destruct (path_query (lookup_req r ov)). reflexivity.
-      + split; [reflexivity|].
-        destruct (ex_vars e) as [|v1 rest] eqn:Ev; [congruence|].
-        destruct (Hvars v1 (or_introl eq_refl)) as (r1 & ov1 & _ & _ & F1 & K1).
-        unfold key_okx, key_p in K1. destruct K1 as [P1 Q1]. rewrite F1 in Q1.
-        rewrite (pref_uniform r ov r1 ov1) by congruence. exact Q1.
+      + split; [reflexivity|]. unfold qm_key_ok, key_p in Q. rewrite orb_false_r in Q. apply negb_true_iff in Q. exact Q.
   Qed.
 
   Lemma serve_simx c hs now r0 st' rp lg cU hsU :
@@ -885,7 +878,7 @@ Section TransparencyX.
       destruct (xv_find (vary_tuple r ov) (ex_vars e)) as [v|] eqn:V.
       + inversion H; subst. rewrite (hit_is_cf _ _ _ _ _ _ _ _ I L GH V). apply finish_equiv_x.
       + unfold vary_missingX in H. destruct (compute hs r ov true) as [[x hs'] lg'] eqn:C. apply compute_cf in C. subst x.
-        destruct (may_store_x true sfilter (rq_method r) (cf r ov true)); inversion H; subst; apply finish_equiv_x.
+        destruct (may_store_x true sfilter (rq_method r) (cf r ov true) && _); inversion H; subst; apply finish_equiv_x.
   Qed.
 
   Definition obsx_equiv (a c : obsx) : Prop :=
@@ -979,7 +972,7 @@ Section TransparencyX.
       pose proof (A _ _ _ F Hin) as Ad. rewrite Ev in Ad.
       rewrite (may_store_x_method true sfilter (rq_method r) M_GET) in Hnot by (rewrite GH; reflexivity). congruence.
     - unfold vary_missingX. destruct (compute hs r ov true) as [[x hs'] lg'].
-      destruct (may_store_x true sfilter (rq_method r) x); split; reflexivity.
+      destruct (may_store_x true sfilter (rq_method r) x && _); split; reflexivity.
   Qed.
 
   Lemma uncacheable_recomputed_history ops c hs now r0 :
@@ -1014,7 +1007,7 @@ Section Histories.
   Variable vary_header : request -> option (bytes * option bytes) -> fatx -> list (bytes * bytes).
   Variable clear_alias : request -> option request.
   Notation missR := (missX hstate compute true ims_on fix_ovkey fix_svary sfilter negotiate vary_tuple vary_header).
-  Notation runR_state := (runX_state hstate compute true ims_on true fix_ovkey fix_clear fix_svary sfilter parse_ims sanitize_ok
+  Notation runR_state := (runX_state hstate compute true ims_on true fix_ovkey fix_clear fix_svary true sfilter parse_ims sanitize_ok
                                      prime override negotiate vary_tuple vary_header clear_alias).
 
   (** the miss arm stores exactly when admission says so, and nothing else changes in the cache *)
